@@ -67,6 +67,18 @@ fn main() {
 fn replay(id: &str, v: &Value) -> i32 {
     let case = &v["case"];
     let sub = v["sub"].as_str().unwrap_or("");
+    if id == "C13" || id == "C14" {
+        // complete enumerations that take well under a second: re-run them whole, twice
+        std::env::set_var("VERIF_REPLAY_KEY", v["key"].as_str().unwrap_or(""));
+        println!("replay property={} sub={} key={}", id, sub, v["key"]);
+        let a = if id == "C13" { c13::run_c13("quick") } else { c13::run_c14("quick") };
+        let b = if id == "C13" { c13::run_c13("quick") } else { c13::run_c14("quick") };
+        if a != b {
+            println!("REPLAY-NONDETERMINISTIC: the two replay runs differ; the failure is not to be trusted");
+            return 3;
+        }
+        return 0;
+    }
     let f = |case: &Value| -> Value {
         match id {
             "C01" | "C07" => c01::replay(case),
